@@ -816,6 +816,72 @@ static void run_random(uint64_t idx)
     VRT_COUNT("random.histories");
 }
 
+/* lists far longer than 2^16 elements: counters, sort, reverse and both link directions must not depend on the length */
+#define BIGL 70000
+static int big_cmp(const void *a, const void *b, void *p)
+{
+    (void)p;
+    return (*(const int *)a > *(const int *)b) - (*(const int *)a < *(const int *)b);
+}
+static int big_count_visit(void *e, void *p) { (void)e; ++*(size_t *)p; return 0; }
+static void run_big(uint64_t which)
+{
+    struct belem { int key; int seq; struct cstl_dlist_node n; } *E = vrt_alloc(sizeof(*E) * BIGL);
+    struct cstl_dlist a, b;
+    vrt_rng g;
+    size_t i, n;
+    const struct cstl_dlist_node *p;
+    void *e;
+    int last;
+    vrt_rng_seed(&g, vrt_seed, 0xC12B16 + which);
+    vrt_case_note("big: %d elements, push/concat/sort/reverse/foreach both ways/pop", BIGL);
+    cstl_dlist_init(&a, offsetof(struct belem, n)); cstl_dlist_init(&b, offsetof(struct belem, n));
+    VRT_OP1("dlist.push_back", "%ld elements into two lists", BIGL);
+    for (i = 0; i < BIGL; i++) {
+        E[i].key = (int)vrt_below(&g, which ? 5 : 1000000); E[i].seq = (int)i;
+        if (i < BIGL / 2) cstl_dlist_push_back(&a, &E[i]); else cstl_dlist_push_front(&b, &E[BIGL - 1 - (i - BIGL / 2)]);
+    }
+    /* b was filled front-first with the upper half in descending index order: it reads BIGL/2 .. BIGL-1 */
+    for (i = BIGL / 2; i < BIGL; i++) E[i].seq = (int)i;
+    VRT_CHECK(cstl_dlist_size(&a) + cstl_dlist_size(&b) == BIGL, "dlist.big.size", "sizes %zu + %zu", cstl_dlist_size(&a), cstl_dlist_size(&b));
+    VRT_OP0("dlist.concat", "two halves");
+    cstl_dlist_concat(&a, &b);
+    VRT_CHECK(cstl_dlist_size(&a) == BIGL && cstl_dlist_size(&b) == 0, "dlist.big.concat.size", "size %zu after concat", cstl_dlist_size(&a));
+    for (p = a.h.n, n = 0; p != &a.h && n <= BIGL; p = p->n, n++)
+        VRT_CHECK(p == &E[n].n && p->n->p == p, "dlist.big.concat.order", "element %zu out of place or back link wrong after concat", n);
+    VRT_CHECK(n == BIGL, "dlist.big.concat.length", "%zu elements linked", n);
+    n = 0;
+    VRT_OP0("dlist.foreach", "REV count");
+    cstl_dlist_foreach(&a, big_count_visit, &n, CSTL_DLIST_FOREACH_DIR_REV);
+    VRT_CHECK(n == BIGL, "dlist.big.foreach.rev.count", "reverse foreach visited %zu", n);
+    VRT_OP0("dlist.sort", "big");
+    cstl_dlist_sort(&a, big_cmp, NULL);
+    for (p = a.h.n, n = 0, last = -1; p != &a.h && n <= BIGL; p = p->n, n++) {
+        const struct belem *x = (const struct belem *)((const char *)p - offsetof(struct belem, n));
+        VRT_CHECK(x >= E && x < E + BIGL && p->n->p == p, "dlist.big.sort.links", "foreign node or broken back link after sort");
+        VRT_CHECK(x->key >= last, "dlist.big.sort.order", "keys out of order at %zu", n);
+        last = x->key;
+    }
+    VRT_CHECK(n == BIGL && cstl_dlist_size(&a) == BIGL, "dlist.big.sort.length", "%zu elements linked, size %zu", n, cstl_dlist_size(&a));
+    VRT_OP0("dlist.reverse", "big");
+    cstl_dlist_reverse(&a);
+    last = 0x7fffffff; n = 0;
+    VRT_OP0("dlist.pop", "drain from both ends");
+    while ((e = (n & 1) ? cstl_dlist_pop_back(&a) : cstl_dlist_pop_front(&a)) != NULL) {
+        n++;
+        VRT_CHECK(n <= BIGL, "dlist.big.drain.overlong", "more elements popped than were pushed");
+        if (!(n & 1)) continue;            /* elements popped from the front must descend */
+        VRT_CHECK(((struct belem *)e)->key <= last, "dlist.big.reverse.order", "keys not descending from the front after reverse");
+        last = ((struct belem *)e)->key;
+    }
+    VRT_CHECK(n == BIGL && cstl_dlist_size(&a) == 0, "dlist.big.drain.count", "%zu elements popped", n);
+    cstl_dlist_push_back(&a, &E[0]); cstl_dlist_push_front(&a, &E[1]);
+    VRT_CHECK(cstl_dlist_back(&a) == &E[0] && cstl_dlist_front(&a) == &E[1], "dlist.big.reuse", "pushes after the drain landed in the wrong place");
+    vrt_free(E);
+    VRT_COUNT("big.cases");
+    vrt_sig(0, 0xb16 + which);
+}
+#define NBIG 2
 static uint64_t nrandom(void)
 {
     if (is_clear_mode) return vrt_thorough ? 2000 : 200;
@@ -829,12 +895,14 @@ static uint64_t ncases(void)
         else { scopes = small_scopes; nscopes = NSCOPES(small_scopes); }
     } else if (vrt_thorough) { scopes = thorough_scopes; nscopes = NSCOPES(thorough_scopes); }
     else { scopes = quick_scopes; nscopes = NSCOPES(quick_scopes); }
-    return nscopes + nrandom();
+    return nscopes + (is_clear_mode ? 0 : NBIG) + nrandom();
 }
 static void run_case(uint64_t idx)
 {
+    const uint64_t nb = is_clear_mode ? 0 : NBIG;
     if (idx < (uint64_t)nscopes) run_closure((int)idx);
-    else run_random(idx - nscopes);
+    else if (idx < nscopes + nb) run_big(idx - nscopes);
+    else run_random(idx - nscopes - nb);
 }
 static void winit(void)
 {
